@@ -30,6 +30,11 @@ def line(idx, rng, maxn=8, maxlen=10, miri=False):
                     pan.append("%d:%d" % (b, i))
     if pan:
         d["panics"] = ",".join(pan)
+    d["reuse"] = rng.choice([0, 1])          # clear and reuse one result vector across broadcasts, as the sample loop does
+    r = rng.random()
+    if r < 0.3 and len(hist) >= 2:
+        d["callers"] = rng.choice([2, 2, 3])     # the pool is driven from several caller threads
+        d["cmode"] = rng.choice([0, 0, 1])       # one after the other, or concurrently
     d["dmode"] = rng.choice([0, 0, 1, 2, 3, 3, 4])
     d["damount"] = rng.choice([5, 30, 120]) if not miri else rng.choice([1, 3])
     d["fpint"] = rng.choice([0, 20, 50, 80])
